@@ -297,7 +297,9 @@ class Interp(object):
                     if t == is_and:
                         go(i + 1, s2)
                     else:
-                        res.append(('val', v if not isinstance(v, (Sym, Opaque)) else Const(t), s2))
+                        # `x or default` with a truthy x is x itself (its kind matters to the consumer)
+                        keep = not isinstance(v, (Sym, Opaque)) or (t and not is_and and isinstance(v, Opaque))
+                        res.append(('val', v if keep else Const(t), s2))
         go(0, st)
         return res
 
